@@ -397,6 +397,38 @@ def c20_6(ctx):
     return out
 
 
+_BYTE_REWRITES = ("strip", "lstrip", "rstrip", "replace", "lower", "upper", "translate", "removeprefix", "removesuffix", "split", "expandtabs")
+
+
+def c20_7(ctx):
+    """BCURSingle.parse / BCURMulti.parse: the bytes recovered by bcur_decode are re-encoded as they are -- any byte-level
+    rewrite (strip, replace, ...) between bcur_decode and b2a_base64 changes payloads that contain the affected bytes"""
+    out = []
+    for spec in ("bcur:BCURSingle.parse", "bcur:BCURMulti.parse"):
+        mod, fn = rl.get(ctx, spec)
+        sites = rl.find_calls(fn, "b2a_base64")
+        if not sites:
+            out.append(ctx.err(spec, "b2a_base64 call not found", fn, mod))
+            continue
+        for n, c in sites:
+            if not c.args:
+                continue
+            ex = expand(fn, n.id, c.args[0], depth=4)
+            if isinstance(ex, ast.Call) and call_name(ex) == "bcur_decode":
+                out.append(ctx.ok(spec, "the decoded payload is handed to b2a_base64 unchanged", c, mod, key="payload-verbatim"))
+                continue
+            rew = [x for x in ast.walk(ex) if isinstance(x, ast.Call) and isinstance(x.func, ast.Attribute) and x.func.attr in _BYTE_REWRITES
+                   and any(isinstance(y, ast.Call) and call_name(y) == "bcur_decode" for y in ast.walk(x.func.value))]
+            if rew:
+                out.append(ctx.bad(spec, "the decoded payload is rewritten with .%s() before it is base64-encoded (`%s`): a payload that begins or ends with (or contains) the "
+                                         "affected bytes does not come back as it was encoded" % (rew[0].func.attr, ast.unparse(c)[:90]), c, mod, key="payload-verbatim"))
+            elif "call:bcur_decode" in origins(fn, n.id, c.args[0]):
+                out.append(ctx.err(spec, "what is done to the decoded payload before b2a_base64 is not recognised: `%s`" % ast.unparse(ex)[:90], c, mod))
+            else:
+                out.append(ctx.bad(spec, "b2a_base64 is not applied to the output of bcur_decode (`%s`)" % ast.unparse(ex)[:90], c, mod, key="payload-verbatim"))
+    return out
+
+
 OBLIGATIONS = [
     ("C20.1", "RANGE partition+agreement", c20_1),
     ("C20.2", "SIBLING", c20_2),
@@ -404,5 +436,6 @@ OBLIGATIONS = [
     ("C20.4", "GUARD per-iteration", c20_4),
     ("C20.5", "GUARD", c20_5),
     ("C20.6", "AFFINE", c20_6),
+    ("C20.7", "DATAFLOW verbatim", c20_7),
 ]
 FLOORS = {"C20.1": 7, "C20.2": 4, "C20.3": 3, "C20.4": 4, "C20.5": 7, "C20.6": 2}
